@@ -6,6 +6,9 @@
 //	R2  statements touching X.values / X.types of a     -> preceded by simrt.Access(&X.<mutex>, isWrite, "file:line")   (env)
 //	    scope that is not a fresh local
 //	R3  go F(a...)                                      -> { f:=F; x:=a...; simrt.Go(func(){ f(x...) }) }   (env, vm)
+//	R5  a statement of package vm that calls a channel method of reflect.Value outside a select  -> preceded by simrt.Yield("chanop"),
+//	    (TryRecv, TrySend, Recv, Send, Close; Len/Cap in functions that also use one of those)       so that a check-then-act on
+//	                                                                                                channel state can be interleaved
 //	R4  reflect.Select(cases)                           -> simrt.Select(cases): ties among ready cases are decided by the case's choice list
 //
 // All insertions stay on the original line so positions in panics and in
@@ -37,6 +40,7 @@ type report struct {
 	AccessProbes int            `json:"access_probes_inserted"`
 	GoStmts      int            `json:"go_statements_rewritten"`
 	Selects      int            `json:"reflect_select_calls_rewritten"`
+	ChanYields   int            `json:"channel_method_yields_inserted"`
 	Unrewritten  []string       `json:"unrewritten_sync_sites"`
 	Files        map[string]int `json:"edits_per_file"`
 	AccessSites  []string       `json:"access_sites"`
@@ -281,6 +285,15 @@ func (rw *rewriter) rewrite() {
 			rw.fresh = map[string]bool{}
 			rw.collectFresh(fd.Body)
 			rw.walkList(fd.Body.List)
+		}
+	}
+
+	// R5
+	if rw.fi.pkg == "vm" {
+		for _, d := range f.Decls {
+			if fd, ok := d.(*ast.FuncDecl); ok && fd.Body != nil {
+				rw.chanYields(fd.Body)
+			}
 		}
 	}
 
@@ -567,4 +580,89 @@ func identityOverlay(repo, target string, ov map[string]string) error {
 		return err
 	}
 	return walk(repo, func(rel string) { ov[filepath.Join(target, rel)] = filepath.Join(repo, rel) })
+}
+
+var chanMethods = map[string]bool{"TryRecv": true, "TrySend": true, "Recv": true, "Send": true, "Close": true}
+
+// chanYields (R5) puts a yield point in front of every statement that performs a channel
+// operation through reflect.Value methods outside reflect.Select. The shipped interpreter has only
+// `ch.Close()` of that kind; a fast path like `if ch.Len() > 0 { v, ok = ch.TryRecv() }` gets a
+// yield before the check and one before the act, which makes the window between them a
+// scheduling decision instead of something only real parallelism can hit.
+func (rw *rewriter) chanYields(body *ast.BlockStmt) {
+	uses := false
+	ast.Inspect(body, func(n ast.Node) bool {
+		if c, ok := n.(*ast.CallExpr); ok {
+			if se, ok := c.Fun.(*ast.SelectorExpr); ok && chanMethods[se.Sel.Name] && len(c.Args) <= 1 {
+				uses = true
+			}
+		}
+		return true
+	})
+	if !uses {
+		return
+	}
+	shallow := func(st ast.Stmt) bool {
+		found := false
+		ast.Inspect(st, func(n ast.Node) bool {
+			if n == nil || found {
+				return false
+			}
+			switch x := n.(type) {
+			case *ast.BlockStmt:
+				if ast.Node(x) != ast.Node(st) {
+					return false // nested statement lists get their own yields
+				}
+			case *ast.FuncLit:
+				return false
+			case *ast.CallExpr:
+				if se, ok := x.Fun.(*ast.SelectorExpr); ok && len(x.Args) <= 1 {
+					if chanMethods[se.Sel.Name] || se.Sel.Name == "Len" || se.Sel.Name == "Cap" {
+						if id, isPkg := se.X.(*ast.Ident); !isPkg || (id.Name != "reflect" && id.Name != "strings" && id.Name != "bytes") {
+							found = true
+						}
+					}
+				}
+			}
+			return true
+		})
+		return found
+	}
+	var walk func(list []ast.Stmt)
+	walk = func(list []ast.Stmt) {
+		for _, st := range list {
+			switch x := st.(type) {
+			case *ast.DeferStmt, *ast.GoStmt, *ast.LabeledStmt:
+				continue
+			case *ast.BlockStmt:
+				walk(x.List)
+				continue
+			}
+			if shallow(st) {
+				o := rw.off(st.Pos())
+				rw.edits = append(rw.edits, edit{o, o, `simrt.Yield("chanop"); `})
+				rw.rep.ChanYields++
+				rw.usesSim = true
+			}
+			ast.Inspect(st, func(n ast.Node) bool {
+				switch b := n.(type) {
+				case *ast.FuncLit:
+					return false
+				case *ast.BlockStmt:
+					if ast.Node(b) != ast.Node(st) {
+						walk(b.List)
+						return false
+					}
+				case *ast.CaseClause:
+					walk(b.Body)
+					return false
+				case *ast.CommClause:
+					walk(b.Body)
+					return false
+				}
+				return true
+			})
+		}
+	}
+	walk(body.List)
 }
